@@ -138,6 +138,10 @@ func waitCond(c *sync.Cond, d time.Duration) {
 
 var c18Mu sync.Mutex
 
+// settleLimit bounds the waits for "closed" and "no goroutine left": a leak lasts forever, so the limit only has to be
+// far above what parked hook points (up to 250 ms each) and a busy machine can add; it is paid only when a check fails.
+const settleLimit = 30 * time.Second
+
 func subscriptionGoroutines() (int, string) {
 	buf := make([]byte, 1<<20)
 	n := runtime.Stack(buf, true)
@@ -259,21 +263,26 @@ func checkC18(c *TeardownCase) (*ev.Failure, map[string]bool) {
 		case "client:stop":
 			cc.SendJSON(map[string]interface{}{"type": "stop", "id": fmt.Sprintf("s%d", i)})
 		case "client:terminate":
+			cc.MarkEnding()
 			cc.SendJSON(map[string]interface{}{"type": "connection_terminate"})
 			connEnded = true
 		case "client:disconnect":
 			cc.Close()
 			connEnded = true
 		case "client:malformed":
+			cc.MarkEnding()
 			cc.SendRaw([]byte(`{"type": "start", "id": `))
 			connEnded = true
 		case "client:startNoPayload":
+			cc.MarkEnding()
 			cc.SendJSON(map[string]interface{}{"type": "start", "id": "np"})
 			connEnded = true
 		case "client:unknownType":
+			cc.MarkEnding()
 			cc.SendJSON(map[string]interface{}{"type": "bogus"})
 			connEnded = true
 		case "client:invalidQuery":
+			cc.MarkEnding()
 			cc.SendJSON(map[string]interface{}{"type": "start", "id": "bad", "payload": map[string]interface{}{"query": "subscription { nope }"}})
 			connEnded = true
 		case "upstream:event":
@@ -329,10 +338,10 @@ func checkC18(c *TeardownCase) (*ev.Failure, map[string]bool) {
 	cc.Close()
 	select {
 	case <-cc.HandlerDone:
-	case <-time.After(5 * time.Second):
+	case <-time.After(settleLimit):
 		buf := make([]byte, 1<<16)
 		buf = buf[:runtime.Stack(buf, true)]
-		return ev.Failf("deadlock:handler", "the subscription handler did not return within 5s after the client disconnected\n%s", trunc(string(buf), 3000)), info
+		return ev.Failf("deadlock:handler", "the subscription handler did not return within 30s after the client disconnected\n%s", trunc(string(buf), 3000)), info
 	}
 	if cc.HandlerPanic != "" {
 		return ev.Failf("panic:handler", "%s", cc.HandlerPanic), info
@@ -345,14 +354,14 @@ func checkC18(c *TeardownCase) (*ev.Failure, map[string]bool) {
 		return ev.Failf("frame", "the client received bytes that are not a complete well-formed message: %s", fe), info
 	}
 	for i, s := range subs {
-		if s.up != nil && !s.up.WaitClosed(2*time.Second) {
-			return ev.Failf("upstream-open", "the upstream subscription of s%d was not closed within 2s after the connection ended", i), info
+		if s.up != nil && !s.up.WaitClosed(settleLimit) {
+			return ev.Failf("upstream-open", "the upstream subscription of s%d was not closed within 30s after the connection ended", i), info
 		}
-		if s.ws != nil && !s.ws.WaitClosed(2*time.Second) {
-			return ev.Failf("upstream-open", "the upstream websocket of s%d was not closed within 2s after the connection ended", i), info
+		if s.ws != nil && !s.ws.WaitClosed(settleLimit) {
+			return ev.Failf("upstream-open", "the upstream websocket of s%d was not closed within 30s after the connection ended", i), info
 		}
 	}
-	deadline := time.Now().Add(2 * time.Second)
+	deadline := time.Now().Add(settleLimit)
 	for {
 		n, which := subscriptionGoroutines()
 		n -= baseline
@@ -360,7 +369,7 @@ func checkC18(c *TeardownCase) (*ev.Failure, map[string]bool) {
 			break
 		}
 		if time.Now().After(deadline) {
-			return ev.Failf("leak:"+which, "%d goroutine(s) of the subscription machinery remain 2s after the connection ended (e.g. %s)", n, which), info
+			return ev.Failf("leak:"+which, "%d goroutine(s) of the subscription machinery remain 30s after the connection ended (e.g. %s)", n, which), info
 		}
 		time.Sleep(time.Millisecond)
 	}
@@ -519,7 +528,7 @@ func TestC18(t *testing.T) {
 		t.Fatal("C18 needs -tags verif")
 	}
 	rec := ev.Get("C18")
-	rec.Rule = "histories of 2..10 client actions (start, stop, terminate, abrupt disconnect, malformed JSON, start without payload, unknown type, invalid query) and upstream actions (event, complete, error, disconnect) over 1..3 subscriptions on one connection (harness-owned net.Pipe), each step either followed by a settle pause or racing with the next one; upstream scripted in process (75%) or a real graphql-ws server behind the real MultiOpQueryer.Subscribe (25%); for single-subscription cases 1..3 drawn ordering constraints 'hook point P before hook point Q' over 18 verif hook points, enforced by parking the goroutine that reaches Q first (bounded). Oracle: process alive, handler returns within 5s after the final client disconnect, every byte sequence received parses as complete RFC 6455 frames carrying JSON messages, every upstream subscription/connection observed closed within 2s, no goroutine of Listen/Close/Subscribe/heartbeat/handler left after 2s. non-trivial = a teardown action racing an upstream action, or a satisfied ordering constraint; distinct by hash(case)"
+	rec.Rule = "histories of 2..10 client actions (start, stop, terminate, abrupt disconnect, malformed JSON, start without payload, unknown type, invalid query) and upstream actions (event, complete, error, disconnect) over 1..3 subscriptions on one connection (harness-owned net.Pipe), each step either followed by a settle pause or racing with the next one; upstream scripted in process (75%) or a real graphql-ws server behind the real MultiOpQueryer.Subscribe (25%); for single-subscription cases 1..3 drawn ordering constraints 'hook point P before hook point Q' over 18 verif hook points, enforced by parking the goroutine that reaches Q first (bounded). Oracle: process alive, handler returns (30s limit) after the final client disconnect, every byte sequence received parses as complete RFC 6455 frames carrying JSON messages, every upstream subscription/connection observed closed and no goroutine of Listen/Close/Subscribe/heartbeat/handler left (30s limit). non-trivial = a teardown action racing an upstream action, or a satisfied ordering constraint; distinct by hash(case)"
 	defer census.dump("C18")
 	rapid.Check(t, func(t *rapid.T) {
 		c := genTeardownCase(t)
@@ -664,7 +673,7 @@ func TestC18Heartbeat(t *testing.T) {
 				fails <- ev.Failf("frame", "a frame was corrupted around the heartbeat: %s", frameErr)
 				return
 			}
-			if !sub.WaitClosed(2 * time.Second) {
+			if !sub.WaitClosed(settleLimit) {
 				fails <- ev.Failf("upstream-open", "upstream not closed after the heartbeat case")
 			}
 		}(k)
